@@ -95,6 +95,16 @@ _w("C04", 30, 900,
    ["a lost response is not retried in the token flow (tokens are single-use by design)",
     "the authenticated handshake with the stored credentials is exercised by the wire engines (C02/C07/C16)"], min_runs=48, grace_s=300)
 
+def _wire(pid, quick_s, thorough_s, rule, extra_assume=(), **kw):
+    META[pid] = dict(engine="wire", level="exploration", quick_s=quick_s, thorough_s=thorough_s, rule=rule,
+                     assumptions=COMMON_ASSUME + list(extra_assume), **kw)
+
+
+_wire("C14", 35, 900,
+      "each run starts the real InterceptingListener (with or without an application base TLS config, registration wrapper, NodeIdLoader) and a gRPC-style accept loop, then sends 2-7 hostile connections: raw non-TLS bytes; ClientHellos whose ALPN list is built from the library prefixes with hostile suffixes (prefix only, shorter than the chunk header, non-digit header, non-base64, base64 of random / truncated / odd protobuf, valid signed fetch requests carrying hostile wrapped or re-wrapped blobs, mixed and duplicated prefixes, up to 60 KB); honest handshakes that the network drops at the k-th write of either side (with 0..200 bytes of that write delivered); partial hellos followed by a stall and a drop. Honest dials follow half of the hostile connections and always the last one; finally the base listener is closed or made to fail. Non-trivial: every hostile connection; distinct by (kind, class).",
+      ["a peer that stalls forever blocks Accept by design (handshakes are inline); stalls here always end in a drop",
+       "read/write deadlines are not modelled by simnet (the library sets none on this path)"])
+
 HOOK_COMMITS = ["54f90f1 (H2: net/splitlistener.go scheduling points + net/verif_hook_{on,off}.go)",
                 "c914c74 (H1: protocol/dialer.go SimDial seam + protocol/verif_hook_{on,off}.go)"]
 
@@ -104,6 +114,7 @@ NOT_APPLICABLE["C20"] = ("pure function of its arguments (BreakIntoNextProtos/Co
                          "its failure modes are reached by the simulated workloads of C14 (malformed entries in a hostile ClientHello) and C07/C16 (honest payloads needing >99 chunks)")
 
 LEVEL_TEXT = {
+    "C14": "seeded simulation of hostile peers against the real listener: every Accept iteration runs under recover (a panic is a violation), every error for a hostile connection must be Temporary, a subsequent honest node must connect, non-temporary errors only after the base listener is closed or fails.",
     "C09": "seeded discrete-event simulation of rotation/re-enrollment histories over simulated years with cadences up to and including the stated bounds; invariants (never reset, roots stay trusted until the successor is valid, every node holds a valid trusted chain, ClientConfigs agrees) at probe instants around every event.",
     "C04": "seeded exploration of the full configuration product with lost-response retries and response substitution; every clause about response, certificates, server record and node storage is checked with independent crypto/x509/ecdh.",
     "C13": "complete enumeration of single storage faults (every operation position x three error kinds) for 15 flows x 3 back ends x wrapper on/off, each in a fresh simulated world, plus sampled double faults; oracle: error without results, or success reflected in the inner back end; other nodes' records byte-identical.",
